@@ -38,6 +38,8 @@ pub struct Outcome {
     pub entry_point_checks: u64,
     pub restab_checks: u64,
     pub order_comparisons: u64,
+    /// evidence note: ineligible assertions about the other value of a slot, not listed in the answer
+    pub other_value_unlisted: u64,
     pub statuses: BTreeMap<String, u64>,
     /// reference-query summary of the first history of every group (v0 projection)
     pub summaries: Vec<(Case, Summary)>,
@@ -72,7 +74,11 @@ fn push_findings(
     for f in findings {
         let case = cases[cases.len() - 1];
         let history = if cases.len() == 2 {
-            format!("{} vs the same statements recorded as {}", cases[0].short(), cases[1].short())
+            format!(
+                "{} vs the same statements recorded as {}",
+                cases[0].short(),
+                cases[1].short()
+            )
         } else {
             case.short()
         };
@@ -123,7 +129,9 @@ fn check_batch(
         let seen = world.project_batch(batch, functional, at, policy);
         for (c, case) in cases.iter().enumerate() {
             for rival in [false, true] {
-                let Some(prop) = &recs[c].props[rival as usize] else { continue };
+                let Some(prop) = &recs[c].props[rival as usize] else {
+                    continue;
+                };
                 let Some(obs) = seen.get(prop) else {
                     out.violations.push(violation(
                         "no-answer",
@@ -134,9 +142,27 @@ fn check_batch(
                     continue;
                 };
                 out.evaluations += 1;
-                let (findings, digest) = oracle::check_projection(case, case.events.len(), rival, at, policy, &recs[c], obs);
-                push_findings(&mut out.violations, findings, &[case], "single", at, pol, rival, cases);
+                let (findings, digest) = oracle::check_projection(
+                    case,
+                    case.events.len(),
+                    rival,
+                    at,
+                    policy,
+                    &recs[c],
+                    obs,
+                );
+                push_findings(
+                    &mut out.violations,
+                    findings,
+                    &[case],
+                    "single",
+                    at,
+                    pol,
+                    rival,
+                    cases,
+                );
                 if let Some(d) = &digest {
+                    out.other_value_unlisted += d.other_value_unlisted;
                     *out.statuses.entry(d.status.clone()).or_insert(0) += 1;
                 }
                 if !rival {
@@ -144,7 +170,12 @@ fn check_batch(
                 }
             }
         }
-        if seen.len() != recs.iter().map(|r| r.props.iter().flatten().count()).sum::<usize>() {
+        if seen.len()
+            != recs
+                .iter()
+                .map(|r| r.props.iter().flatten().count())
+                .sum::<usize>()
+        {
             out.violations.push(violation(
                 "cross-proposition-influence",
                 functional,
@@ -158,7 +189,16 @@ fn check_batch(
     }
     if with_entry_points && !cases.is_empty() {
         let (at, pol) = plan.queries[0];
-        entry_points(world, &cases[0], &recs[0], at, pol, &reference_obs, out, cases);
+        entry_points(
+            world,
+            &cases[0],
+            &recs[0],
+            at,
+            pol,
+            &reference_obs,
+            out,
+            cases,
+        );
     }
     (reference, reference_obs)
 }
@@ -184,16 +224,26 @@ fn entry_points(
         ));
     };
     for rival in [false, true] {
-        let Some(prop) = &rec.props[rival as usize] else { continue };
-        let Some(expect) = seen.get(prop) else { continue };
+        let Some(prop) = &rec.props[rival as usize] else {
+            continue;
+        };
+        let Some(expect) = seen.get(prop) else {
+            continue;
+        };
         out.entry_point_checks += 2;
         match world.project_triple(&rec.subject, case.functional, rival, at, policy) {
             Ok(rows) if rows.len() == 1 && rows[0] == *expect => {}
-            other => report("triple", format!("BELIEF (s, pred, v) answered {other:?}, BELIEF (?p) answered {expect:?}")),
+            other => report(
+                "triple",
+                format!("BELIEF (s, pred, v) answered {other:?}, BELIEF (?p) answered {expect:?}"),
+            ),
         }
         match world.project_id(prop, at, policy) {
             Ok(rows) if rows.len() == 1 && rows[0] == *expect => {}
-            other => report("id", format!("BELIEF (id: p) answered {other:?}, BELIEF (?p) answered {expect:?}")),
+            other => report(
+                "id",
+                format!("BELIEF (id: p) answered {other:?}, BELIEF (?p) answered {expect:?}"),
+            ),
         }
     }
     out.entry_point_checks += 1;
@@ -209,7 +259,12 @@ fn entry_points(
                         .unwrap_or(false)
                 });
             if !all_match {
-                report("slot", format!("BELIEF SLOT candidate projections {rows:?} differ from the BELIEF (?p) answers"));
+                report(
+                    "slot",
+                    format!(
+                        "BELIEF SLOT candidate projections {rows:?} differ from the BELIEF (?p) answers"
+                    ),
+                );
             }
         }
         Err(e) => report("slot", format!("BELIEF SLOT refused: {e}")),
@@ -217,7 +272,12 @@ fn entry_points(
 }
 
 /// Records and checks `groups` (each: histories that must agree) on `world`.
-pub fn run_groups(tag: &str, groups: &[Vec<Case>], plan: &Plan, deadline: Option<Instant>) -> Outcome {
+pub fn run_groups(
+    tag: &str,
+    groups: &[Vec<Case>],
+    plan: &Plan,
+    deadline: Option<Instant>,
+) -> Outcome {
     let mut out = Outcome::default();
     let mut previous: Option<Pending> = None;
     let mut i = 0;
@@ -248,7 +308,10 @@ pub fn run_groups(tag: &str, groups: &[Vec<Case>], plan: &Plan, deadline: Option
         let functional = groups[i][0].functional;
         let mut cases: Vec<Case> = Vec::new();
         let mut spans: Vec<(usize, usize)> = Vec::new();
-        while i < groups.len() && groups[i][0].functional == functional && (cases.is_empty() || cases.len() + groups[i].len() <= plan.batch_cases) {
+        while i < groups.len()
+            && groups[i][0].functional == functional
+            && (cases.is_empty() || cases.len() + groups[i].len() <= plan.batch_cases)
+        {
             spans.push((cases.len(), groups[i].len()));
             cases.extend(groups[i].iter().cloned());
             i += 1;
@@ -256,11 +319,22 @@ pub fn run_groups(tag: &str, groups: &[Vec<Case>], plan: &Plan, deadline: Option
         let (batch, recs) = world.record(&cases);
         out.histories += cases.len() as u64;
         out.groups += spans.len() as u64;
-        let with_entry_points = plan.entry_points_every > 0 && (batch_no - 1) % plan.entry_points_every == 0;
-        let (reference, seen) = check_batch(world, &batch, &cases, &recs, plan, with_entry_points, &mut out);
+        let with_entry_points =
+            plan.entry_points_every > 0 && (batch_no - 1) % plan.entry_points_every == 0;
+        let (reference, seen) = check_batch(
+            world,
+            &batch,
+            &cases,
+            &recs,
+            plan,
+            with_entry_points,
+            &mut out,
+        );
         for (start, len) in spans {
             for (qi, &(at, pol)) in plan.queries.iter().enumerate() {
-                let Some(first) = &reference[qi][start] else { continue };
+                let Some(first) = &reference[qi][start] else {
+                    continue;
+                };
                 if qi == 0 {
                     out.summaries.push((cases[start].clone(), first.summary()));
                 }
@@ -268,10 +342,21 @@ pub fn run_groups(tag: &str, groups: &[Vec<Case>], plan: &Plan, deadline: Option
                     if !plan.compare_within_group {
                         break;
                     }
-                    let Some(other) = &reference[qi][k] else { continue };
+                    let Some(other) = &reference[qi][k] else {
+                        continue;
+                    };
                     out.order_comparisons += 1;
                     let findings = oracle::compare_orders(first, other);
-                    push_findings(&mut out.violations, findings, &[&cases[start], &cases[k]], "orders", at, pol, false, &[]);
+                    push_findings(
+                        &mut out.violations,
+                        findings,
+                        &[&cases[start], &cases[k]],
+                        "orders",
+                        at,
+                        pol,
+                        false,
+                        &[],
+                    );
                 }
             }
         }
@@ -282,7 +367,12 @@ pub fn run_groups(tag: &str, groups: &[Vec<Case>], plan: &Plan, deadline: Option
                 out.restab_checks += 1;
                 let again = world.project_batch(&prev.batch, prev.functional, at, &POLICIES[pol]);
                 if again != prev.seen {
-                    let moved: Vec<&String> = prev.seen.iter().filter(|(k, v)| again.get(*k) != Some(v)).map(|(k, _)| k).collect();
+                    let moved: Vec<&String> = prev
+                        .seen
+                        .iter()
+                        .filter(|(k, v)| again.get(*k) != Some(v))
+                        .map(|(k, _)| k)
+                        .collect();
                     let mut both = prev.cases.clone();
                     both.extend(cases.iter().cloned());
                     out.violations.push(violation(
@@ -308,7 +398,8 @@ pub fn run_groups(tag: &str, groups: &[Vec<Case>], plan: &Plan, deadline: Option
 /// Re-runs the case(s) of a replay artefact on a fresh World; returns the violations found.
 pub fn replay(doc: &Value) -> Vec<Violation> {
     let r = &doc["replay"];
-    let cases: Vec<Case> = serde_json::from_value(r["cases"].clone()).unwrap_or_else(|e| vcore::report::machinery(&format!("replay cases: {e}")));
+    let cases: Vec<Case> = serde_json::from_value(r["cases"].clone())
+        .unwrap_or_else(|e| vcore::report::machinery(&format!("replay cases: {e}")));
     let batch: Vec<Case> = serde_json::from_value(r["batch"].clone()).unwrap_or_default();
     let at = r["query"]["at"].as_u64().unwrap_or(3) as usize;
     let pol = r["query"]["policy"].as_u64().unwrap_or(0) as usize;
@@ -324,7 +415,12 @@ pub fn replay(doc: &Value) -> Vec<Violation> {
     let mut found = Vec::new();
     match relation {
         "repetition" | "monotone" => {
-            let out = run_groups("replay", &[vec![cases[0].clone()], vec![cases[1].clone()]], &plan, None);
+            let out = run_groups(
+                "replay",
+                &[vec![cases[0].clone()], vec![cases[1].clone()]],
+                &plan,
+                None,
+            );
             found.extend(out.violations);
             if out.summaries.len() == 2 {
                 let (before, after) = (&out.summaries[0], &out.summaries[1]);
@@ -359,7 +455,13 @@ pub fn replay(doc: &Value) -> Vec<Violation> {
 }
 
 /// The post-hoc laws between two multisets (all assertions eligible).
-pub fn pair_law(relation: &str, before: &Case, b: &Summary, after: &Case, a: &Summary) -> Vec<Violation> {
+pub fn pair_law(
+    relation: &str,
+    before: &Case,
+    b: &Summary,
+    after: &Case,
+    a: &Summary,
+) -> Vec<Violation> {
     let (bs, as_) = (before.specs(), after.specs());
     let findings = match relation {
         "repetition" => {
@@ -375,7 +477,9 @@ pub fn pair_law(relation: &str, before: &Case, b: &Summary, after: &Case, a: &Su
                 }
             }
             match added.or_else(|| as_.last().copied()) {
-                Some(x) if as_.len() == bs.len() + 1 => oracle::repetition_law(before.functional, &bs, &x, b, a),
+                Some(x) if as_.len() == bs.len() + 1 => {
+                    oracle::repetition_law(before.functional, &bs, &x, b, a)
+                }
                 _ => vec![],
             }
         }
